@@ -64,3 +64,15 @@ package services
 //@   callpre (*Limiter).Allow: ip == raddr(conn)
 //@   ensures [amp] isUDP(conn) ==> conn.written - old(conn.written) <= totalgrants - old(totalgrants)
 //@   modifies *
+//
+// ---- https (property C13): the values attached to the connection's events are the digest of
+// exactly this hello and its SNI ----
+// getCertificate makes (or looks up) a certificate for the server name; it writes only the cache map
+// (frame trusted, not verified).
+//@ func (*httpsService).getCertificate
+//@   trusted
+//@   modifies entries(s.cache)
+//
+//@ func (*httpsService).Handle$1
+//@   ensures [captured] ja3Digest == hexenc(md5sum(old(tls.ja3str(hello)))) && serverName == hello.ServerName
+//@   modifies *
